@@ -8,7 +8,7 @@ wins at once — for EVERY option set (null move, slide reduction, multi-cut, de
 
 * `pvNode_depth1_le` – a depth-1 root node without a table returns at most `max α B` when `-eval` of every child is
   `≤ B` (the children of a depth-1 node are evaluated: `depth - 1 = 0`, before null move / reductions could apply);
-* `analyze_noWinInOne` – `Analyze` of an engine without a table on a position all of whose children evaluate above
+* `analyze_noTable` / `analyze_noWinInOne` – `Analyze` of an engine without a table on a position all of whose children evaluate above
   `-WinThreshold` never reports `v ≥ WinThreshold` with `Stats.Depth ≤ 1`; and the engine still has no table. -/
 namespace Search
 open Tak (Err)
@@ -152,15 +152,15 @@ def NoWinInOne (g : Game P M) (p : P) : Prop := ∀ m c, g.apply p m = .ok c →
 /-- the loop state of `Analyze` does not claim a win found at depth ≤ 1 -/
 def NoClaim (a : ALoop M) : Prop := a.v < Facts.winThreshold ∨ 2 ≤ a.st.depth
 
-/-- how one iteration ends (no table, `base = 0`) -/
-def StepNC : AOut M → Prop
+/-- how one iteration ends (no table, `base = 0`); `W`: "no move wins at once" is known -/
+def StepNC (W : Prop) : AOut M → Prop
   | .cancelled s' => s'.hasTable = false
-  | .done a' s' => s'.hasTable = false ∧ NoClaim a'
-  | .go a' s' => s'.hasTable = false ∧ NoClaim a'
+  | .done a' s' => s'.hasTable = false ∧ (W → NoClaim a')
+  | .go a' s' => s'.hasTable = false ∧ (W → NoClaim a')
 
-theorem analyzeStep_noClaim [DecidableEq M] (cfg : Cfg) (p : P) (hp : NoWinInOne g p) (i : Int) (hi : 1 ≤ i)
-    (a : ALoop M) (s : Eng M) (hs : s.hasTable = false) :
-    Sat (analyzeStep g cfg o p 0 i a s) StepNC := by
+theorem analyzeStep_noClaim [DecidableEq M] (cfg : Cfg) (p : P) (W : Prop) (hp : W → NoWinInOne g p) (i : Int)
+    (hi : 1 ≤ i) (a : ALoop M) (s : Eng M) (hs : s.hasTable = false) :
+    Sat (analyzeStep g cfg o p 0 i a s) (StepNC W) := by
   unfold analyzeStep
   have hs' : ({ s with st := { depth := i + 0 } } : Eng M).hasTable = false := hs
   have hkeep := pvSearch_keeps (g := g) (o := o) cfg.opts p (i + 0) a.ms (Facts.minEval - 1) (Facts.maxEval + 1)
@@ -181,13 +181,14 @@ theorem analyzeStep_noClaim [DecidableEq M] (cfg : Cfg) (p : P) (hp : NoWinInOne
       by_cases hl : (load o r.2).1 = true
       · rw [if_pos hl]; exact hh'
       · rw [if_neg hl]
-        have hnc : NoClaim (iterAcc i a next r.1.2 (load o r.2).2) := by
+        have hnc : W → NoClaim (iterAcc i a next r.1.2 (load o r.2).2) := by
+          intro hw
           by_cases h1 : i = 1
           · left
             show r.1.2 < Facts.winThreshold
             subst h1
             have hle := pvSearch_depth1_le (g := g) (o := o) cfg.opts p (Facts.winThreshold - 1)
-              (fun m c h => by have := hp m c h; omega) (Facts.minEval - 1) (Facts.maxEval + 1) (by decide) a.ms
+              (fun m c h => by have := hp hw m c h; omega) (Facts.minEval - 1) (Facts.maxEval + 1) (by decide) a.ms
               { s with st := { depth := 1 + 0 } } hs'
             have := hle r hr next hn
             omega
@@ -198,9 +199,9 @@ theorem analyzeStep_noClaim [DecidableEq M] (cfg : Cfg) (p : P) (hp : NoWinInOne
         · exact ⟨hh', hnc⟩
         · exact ⟨hh', hnc⟩
 
-theorem analyzeLoop_noClaim [DecidableEq M] (cfg : Cfg) (p : P) (hp : NoWinInOne g p) :
-    ∀ (n : Nat) (i : Int) (a : ALoop M) (s : Eng M), 1 ≤ i → s.hasTable = false → NoClaim a →
-      Sat (analyzeLoop g cfg o p 0 n i a s) (fun x => x.2.hasTable = false ∧ NoClaim x.1) := by
+theorem analyzeLoop_noClaim [DecidableEq M] (cfg : Cfg) (p : P) (W : Prop) (hp : W → NoWinInOne g p) :
+    ∀ (n : Nat) (i : Int) (a : ALoop M) (s : Eng M), 1 ≤ i → s.hasTable = false → (W → NoClaim a) →
+      Sat (analyzeLoop g cfg o p 0 n i a s) (fun x => x.2.hasTable = false ∧ (W → NoClaim x.1)) := by
   intro n
   induction n with
   | zero => intro i a s _ hs ha; exact Sat.ok ⟨hs, ha⟩
@@ -209,7 +210,7 @@ theorem analyzeLoop_noClaim [DecidableEq M] (cfg : Cfg) (p : P) (hp : NoWinInOne
     simp only [analyzeLoop]
     split
     · exact Sat.ok ⟨hs, ha⟩
-    · have hst := analyzeStep_noClaim (g := g) (o := o) cfg p hp i hi a s hs
+    · have hst := analyzeStep_noClaim (g := g) (o := o) cfg p W hp i hi a s hs
       cases hr : analyzeStep g cfg o p 0 i a s with
       | error e => exact Sat.error
       | ok out =>
@@ -219,12 +220,13 @@ theorem analyzeLoop_noClaim [DecidableEq M] (cfg : Cfg) (p : P) (hp : NoWinInOne
         | done a' s' => exact Sat.ok h
         | go a' s' => exact ih (i + 1) a' s' (by omega) h.1 h.2
 
-/-- **`analyze_noWinInOne`** — an engine without a table, ANY configuration (depth, null move, slide reduction, multi-cut,
-de-duplication, `MaxEvals`), any cancel / sort / random oracle, any stale buffers: on a position in which no move wins
-at once, `Analyze` does not report a value `≥ WinThreshold` together with `Stats.Depth ≤ 1` — and still has no table. -/
-theorem analyze_noWinInOne [DecidableEq M] (cfg : Cfg) (p : P) (hp : NoWinInOne g p) (s : Eng M)
-    (hs : s.hasTable = false) :
-    Sat (analyze g cfg o p s) (fun x => x.2.hasTable = false ∧ ¬ (x.1.2.1 ≥ Facts.winThreshold ∧ x.1.2.2.depth ≤ 1)) := by
+/-- **`analyze_noTable`** — an engine without a table, ANY configuration (depth, null move, slide reduction, multi-cut,
+de-duplication, `MaxEvals`), any cancel / sort / random oracle, any stale buffers: `Analyze` leaves it without a table,
+and **on a position in which no move wins at once it does not report a value `≥ WinThreshold` together with
+`Stats.Depth ≤ 1`**. -/
+theorem analyze_noTable [DecidableEq M] (cfg : Cfg) (p : P) (s : Eng M) (hs : s.hasTable = false) :
+    Sat (analyze g cfg o p s) (fun x => x.2.hasTable = false ∧
+      (NoWinInOne g p → ¬ (x.1.2.1 ≥ Facts.winThreshold ∧ x.1.2.2.depth ≤ 1))) := by
   unfold analyze
   have hget : ttGet { s with loads := 0, evals := 0, sorts := 0, rnds := 0, wlog := [] } (g.hash p) = .ok none := by
     unfold ttGet
@@ -233,9 +235,9 @@ theorem analyze_noWinInOne [DecidableEq M] (cfg : Cfg) (p : P) (hp : NoWinInOne 
   show Sat (analyzeFrom g cfg o p (seedOf none) _) _
   unfold analyzeFrom seedOf
   dsimp only
-  have hl := analyzeLoop_noClaim (g := g) (o := o) cfg p hp (cfg.depth - 0).toNat 1
+  have hl := analyzeLoop_noClaim (g := g) (o := o) cfg p (NoWinInOne g p) id (cfg.depth - 0).toNat 1
     ⟨[], 0, { depth := 0 }, 0, 0⟩ { s with loads := 0, evals := 0, sorts := 0, rnds := 0, wlog := [] }
-    (by omega) hs (Or.inl (show (0 : Int) < Facts.winThreshold by decide))
+    (by omega) hs (fun _ => Or.inl (show (0 : Int) < Facts.winThreshold by decide))
   cases hr : analyzeLoop g cfg o p 0 (cfg.depth - 0).toNat 1 ⟨[], 0, { depth := 0 }, 0, 0⟩
       { s with loads := 0, evals := 0, sorts := 0, rnds := 0, wlog := [] } with
   | error e => exact Sat.error
@@ -243,12 +245,18 @@ theorem analyze_noWinInOne [DecidableEq M] (cfg : Cfg) (p : P) (hp : NoWinInOne 
     obtain ⟨a', s'⟩ := x
     obtain ⟨h1, h2⟩ := hl _ hr
     have h1' : s'.hasTable = false := h1
-    have h2' : a'.v < Facts.winThreshold ∨ 2 ≤ a'.st.depth := h2
     refine Sat.ok ⟨h1', ?_⟩
-    rintro ⟨hv, hd⟩
+    rintro hw ⟨hv, hd⟩
+    have h2' : a'.v < Facts.winThreshold ∨ 2 ≤ a'.st.depth := h2 hw
     have hv' : a'.v ≥ Facts.winThreshold := hv
     have hd' : a'.st.depth ≤ 1 := hd
     omega
+
+/-- `analyze_noTable`, the second part alone -/
+theorem analyze_noWinInOne [DecidableEq M] (cfg : Cfg) (p : P) (hp : NoWinInOne g p) (s : Eng M)
+    (hs : s.hasTable = false) :
+    Sat (analyze g cfg o p s) (fun x => x.2.hasTable = false ∧ ¬ (x.1.2.1 ≥ Facts.winThreshold ∧ x.1.2.2.depth ≤ 1)) :=
+  (analyze_noTable cfg p s hs).mono (fun _ h => ⟨h.1, h.2 hp⟩)
 
 end analyze
 end Search
